@@ -249,6 +249,8 @@ func runC15(c *Ctx) {
 		c.Res.count("c15.conc.histories", 1)
 		c.Res.count("c15.conc.ops", int64(st.Ops))
 		c.Res.count("c15.conc.overlapping_ops", int64(st.Overlaps))
+		c.Res.count("c15.conc.writes_during_histories", int64(st.Writes))
+		c.Res.count("c15.conc.iterations_during_histories", int64(st.Iterations))
 		c.Res.count("c15.conc.result."+res, 1)
 		if st.Overlaps > 0 {
 			c.Nontrivial(fmt.Sprintf("conc-%d-%d-%d-%d", seed, g, ops, nk))
@@ -350,6 +352,21 @@ func runC16(c *Ctx) {
 			c.Sample(p)
 		}
 	}
+	// several goroutines tracing their own stores into their own writers at once
+	ntc := 300
+	if !c.Quick() {
+		ntc = 16 * 300
+	}
+	cm := sim.NewRand(c.Seed ^ hashStr("C16traceconc"))
+	for i := 0; i < ntc; i++ {
+		r := cm.Split(uint64(i))
+		if !c.Mine(i) {
+			continue
+		}
+		seed := r.U64()
+		c.Res.Cases++
+		storechk.RunTraceConcurrent(seed, &caseReporter{c: c, caseID: fmt.Sprintf("tc%d", i), replay: map[string]interface{}{"traceconc": seed}})
+	}
 	// tracing through the multistore's cache wrappers (one and two levels, IAVL and transient stores)
 	nt := 4000
 	if !c.Quick() {
@@ -375,6 +392,15 @@ func runC16(c *Ctx) {
 }
 
 func replayC16(c *Ctx, raw json.RawMessage) {
+	var tcs struct {
+		Seed *uint64 `json:"traceconc"`
+	}
+	if json.Unmarshal(raw, &tcs) == nil && tcs.Seed != nil {
+		for k := 0; k < 50; k++ { // an interleaving-dependent case: repeated
+			storechk.RunTraceConcurrent(*tcs.Seed, &caseReporter{c: c, caseID: "replay", replay: raw})
+		}
+		return
+	}
 	var t struct {
 		Trace *storechk.CMProg `json:"cmtrace"`
 	}
